@@ -34,3 +34,18 @@ PROPS["C14"] = dict(
     assumptions=["event definitions of one catch event are pairwise non-matching (an event matches at most one "
                  "definition); the Go code only ever looks at the first match"],
 )
+
+
+# per-property entries living in their own files: runner/props_Cxx.py defining ENTRY (and optionally
+# NOT_APPLICABLE_REASON / HOOKS)
+import glob as _glob, importlib.util as _ilu, os as _os
+for _f in sorted(_glob.glob(_os.path.join(_os.path.dirname(_os.path.abspath(__file__)), "props_C*.py"))):
+    _name = _os.path.basename(_f)[:-3]
+    _spec = _ilu.spec_from_file_location(_name, _f)
+    _m = _ilu.module_from_spec(_spec)
+    _spec.loader.exec_module(_m)
+    _pid = _name.split("_")[1]
+    if hasattr(_m, "ENTRY"):
+        PROPS[_pid] = _m.ENTRY
+    if hasattr(_m, "NOT_APPLICABLE_REASON"):
+        NOT_APPLICABLE[_pid] = _m.NOT_APPLICABLE_REASON
